@@ -415,3 +415,13 @@ pub open spec fn concat_bytes(a: &Allocator, nodes: Seq<NodePtr>) -> Seq<u8>
 pub open spec fn all_atoms(nodes: Seq<NodePtr>) -> bool {
     forall|i: int| 0 <= i < nodes.len() ==> (#[trigger] nodes[i]).tag() != 0
 }
+
+/// allocator grew (or stayed): old nodes and old checkpoints keep their meaning
+pub open spec fn alloc_grows(n: &Allocator, o: &Allocator) -> bool {
+    &&& n.inv()
+    &&& n.heap_limit == o.heap_limit
+    &&& forall|x: NodePtr| #[trigger] o.valid(x) ==> n.valid(x) && n.tree(x) == o.tree(x)
+    &&& forall|c2: &TransparentCheckpoint| #[trigger] o.consistent(c2) ==> n.consistent(c2)
+}
+
+
